@@ -4,7 +4,8 @@
    OsuSv.py, OsuSample.py, OsuSampleSet.py, lists/.   option = a Python exception propagates.
    Numbers: Z for the int-typed fields, exact Q for offsets / bpm / multipliers / float metadata.
    Float PRINTING (repr / :g) is not modelled: the writer emits numeric tokens [WN q] which stand for
-   "a decimal text that float() reads back as q"; everything else is emitted as literal text. *)
+   "a decimal text that float() reads back as q" and [WI q] for the int-typed attributes (str(int) / ':g' of
+   an int: "a text that int() reads back as q"); everything else is emitted as literal text. *)
 From Coq Require Import String Ascii.
 From Coq Require Import ZArith QArith Qround Qabs List Bool.
 From RV Require Import Base.PyNum Base.Text.
@@ -235,8 +236,9 @@ Definition osu_read (lines0 : list text) : option chart :=
   Some (mkChart (ms_meta ms) (ms_bg ms) (ms_samples ms) bpms svs hits holds).
 
 (* ------------------------------------------------------------------ writers *)
-(* a written line is a sequence of tokens: literal text, or a float printed by repr / :g *)
-Inductive wtok := WT (s : text) | WN (q : Q).
+(* a written line is a sequence of tokens: literal text, a float printed by repr / :g (WN), or the value of
+   an int-typed attribute printed by str / :g (WI: no decimal point, read back by int()) *)
+Inductive wtok := WT (s : text) | WN (q : Q) | WI (q : Q).
 Definition wline := list wtok.
 
 (* OsuHit.write_string(keys) *)
@@ -279,19 +281,19 @@ Definition write_meta (c : chart) (ut ua : text) : list wline :=
   let s i := meta_str m i in let n i := meta_num m i in let b i := show_int (bool_z (meta_bool m i)) in
   [ [WT (t "osu file format v14")]; [WT []]; [WT (t "[General]")];
     [WT (t "AudioFilename: " ++ s 0%nat)];
-    [WT (t "AudioLeadIn: "); WN (n 1%nat)];
+    [WT (t "AudioLeadIn: "); WI (n 1%nat)];
     [WT (t "PreviewTime: " ++ show_int (qtrunc (n 2%nat)))];
     [WT (t "Countdown: " ++ b 3%nat)];
     [WT (t "SampleSet: " ++ sampleset_to_string (n 4%nat))];
     [WT (t "StackLeniency: "); WN (n 5%nat)];
-    [WT (t "Mode: "); WN (n 6%nat)];
+    [WT (t "Mode: "); WI (n 6%nat)];
     [WT (t "LetterboxInBreaks: " ++ b 7%nat)];
     [WT (t "SpecialStyle: " ++ b 8%nat)];
     [WT (t "WidescreenStoryboard: " ++ b 9%nat)];
     [WT []]; [WT (t "[Editor]")];
     [WT (t "DistanceSpacing: "); WN (n 10%nat)];
-    [WT (t "BeatDivisor: "); WN (n 11%nat)];
-    [WT (t "GridSize: "); WN (n 12%nat)];
+    [WT (t "BeatDivisor: "); WI (n 11%nat)];
+    [WT (t "GridSize: "); WI (n 12%nat)];
     [WT (t "TimelineZoom: "); WN (n 13%nat)];
     [WT []]; [WT (t "[Metadata]")];
     [WT (t "Title:" ++ ut)];
@@ -302,8 +304,8 @@ Definition write_meta (c : chart) (ut ua : text) : list wline :=
     [WT (t "Version:" ++ s 19%nat)];
     [WT (t "Source:" ++ s 20%nat)];
     [WT (t "Tags:" ++ join SPACE (meta_tags m 21%nat))];
-    [WT (t "BeatmapID:"); WN (n 22%nat)];
-    [WT (t "BeatmapSetID:"); WN (n 23%nat)];
+    [WT (t "BeatmapID:"); WI (n 22%nat)];
+    [WT (t "BeatmapSetID:"); WI (n 23%nat)];
     [WT []]; [WT (t "[Difficulty]")];
     [WT (t "HPDrainRate:"); WN (n 24%nat)];
     [WT (t "CircleSize:"); WN (n 25%nat)];
